@@ -19,7 +19,8 @@ RULE = ("netspace skeletons x every single deviation (quick) / every compatible 
 ASSUMPTIONS = ["comparison of a case stops at the first report step at which EPANET itself issues a warning (unbalanced, negative pressures, pump cannot deliver, ...): from there on the model is outside the common feature set",
                "near-ties: a mismatch is not judged when, at that or the previous step, a state-dependent trigger (tank level vs limit or control threshold, junction pressure vs control threshold, valve/pump/check-valve switching quantity) is within the tolerance of its threshold in either engine; such truncations are counted",
                "PDD cases are compared only at steps where every junction pressure is outside (Pmin, Preq) by more than the tolerance in both engines or the results agree; EPANET's treatment inside the band is judged by C07, not here",
-               "both engines are run with ACCURACY 1e-6 and 200 trials; EPANET results are float32"]
+               "both engines are run with ACCURACY 1e-6 and 200 trials; EPANET results are float32",
+               "cases with a power pump get 0.06 m extra head slack: EPANET computes the constant-power head gain with the specific weight 62.4 lb/ft3 (9802 N/m3), WNTR with 9810 N/m3"]
 
 H = 3600
 UNITS = ["CFS", "GPM", "MGD", "IMGD", "AFD", "LPS", "LPM", "MLD", "CMH", "CMD"]
@@ -160,6 +161,9 @@ def compare(s, a, b, la, lb, upto, counts, near=0.05, limit_steps=()):
     if a.times[:n] != b.times[:n]:
         return "report times %s vs %s" % (a.times[:n], b.times[:n]), 0
     pdd = s["opts"]["dm"] == "PDD"
+    # EPANET's constant-power pump law uses the specific weight 62.4 lb/ft3 (9802 N/m3), WNTR rho*g = 9810 N/m3: the head
+    # gain of a power pump differs by 0.08 % by construction -> extra head slack of 1e-3 x 60 m when the case has one
+    pslack = 0.06 if any(l["t"] == "ppump" for l in s["links"]) else 0.0
     for i in range(n):
         if pdd:
             inside = False
@@ -178,7 +182,7 @@ def compare(s, a, b, la, lb, upto, counts, near=0.05, limit_steps=()):
                 if key == "pressure" and nd["t"] == "res":
                     continue        # a reservoir has no pressure (EPANET reports head - base head)
                 x, y = float(a.node[key][nm][i]), float(b.node[key][nm][i])
-                if abs(x - y) > tol + 1e-3 * max(abs(x), abs(y)):
+                if abs(x - y) > tol + 1e-3 * max(abs(x), abs(y)) + (pslack if key != "demand" else 0.0):
                     msg = "%s of %s at t=%d: %s %.6g, %s %.6g" % (key, nm, a.times[i], la, x, lb, y)
                     break
             if msg:
